@@ -3,6 +3,7 @@ evidence; replay.  The judgements themselves are made by spec/Trace.tla - this f
 import json
 import os
 import shutil
+import subprocess
 import sys
 import time
 from concurrent.futures import ThreadPoolExecutor
@@ -16,7 +17,7 @@ ALL = ['P_T', 'P_TA', 'P_N', 'F_T', 'F_TA', 'F_N', 'V_T', 'V_TA', 'V_N', 'M_T', 
 VARYING = ['V_T', 'V_TA', 'V_N', 'M_T', 'M_NA', 'VV_T']
 ALIGNED = ['P_TA', 'F_TA', 'V_TA', 'M_NA', 'VV_T']
 NONTRIV = ['P_N', 'F_N', 'V_N', 'M_NA']
-S5Q = ['P_T', 'P_TA', 'P_N', 'F_T', 'F_TA', 'F_N', 'V_T', 'V_TA', 'V_N', 'M_T', 'B_T', 'B_TA', 'VB_T']
+S5Q = ['P_T', 'P_TA', 'P_N', 'F_T', 'F_TA', 'F_N', 'V_T', 'V_TA', 'V_N', 'M_T', 'B_T', 'B_TA', 'VB_T', 'P_TB', 'B_B']
 
 K_SEQ = {'SIZE', 'EMPTY', 'CAP', 'SHAPE', 'VALUES', 'RETURNED_ITERATOR', 'STATE', 'OBS_MISSING', 'OBS_OF_ABSENT'}
 K_MEM = {'BOUNDS', 'DATA_RANGE', 'DATA_EXCEEDS_MEMORY_CONSUMPTION', 'MEMORY_CONSUMPTION_EXCEEDS_BLOCK',
@@ -214,6 +215,14 @@ PROPS = {
             'technique': 'same traces as C13; the laws of < (derived operators, strict order on all triples, compatibility '
                          'with equality, independence of operand kind and of non-content, vector order = lexicographical '
                          'extension of the observed element order) are judged over the recorded truth tables by Trace.tla'},
+    'C20': {'level': 'other', 'units': {'quick': [], 'thorough': []}, 'kinds': set(), 'crash': never, 'filter': None,
+            'technique': 'operation alphabet of the TLA+ specification x configuration matrix; each cell (operation '
+                         'group, parameter list, allocator kind) is instantiated on the real templates and compiled; '
+                         'the compiler decides'},
+    'C15': {'level': 'model_checking', 'units': {'quick': [], 'thorough': []}, 'kinds': set(), 'crash': never, 'filter': None,
+            'technique': 'spec/Sources.tla: TLC enumerates every applicable (parameter kind, source form, source/stored '
+                         'type pair, length) case; one implementation execution per case; stored values, source '
+                         'post-state and per-item copy/move counts judged by the specification'},
     'C16': {'level': 'model_checking',
             'units': {'quick': u('S1', ALL) + u('S2', ALL, ('NP',)),
                       'thorough': u('S1', ALL, ('AE', 'NP')) + u('S2', ALL, ('NP', 'AE', 'PR'))},
@@ -226,6 +235,212 @@ PROPS = {
             'technique': 'all model transitions from/to states with no element (fresh, capacity 0, '
                          'default-constructed, emptied) replayed under rotating junk patterns and judged by Trace.tla'},
 }
+
+
+# ------------------------------------------------------------------------------------------------- C20: availability
+GROUP_OPS = {
+    'COPY': 'copy construction and copy assignment of the vector',
+    'PLAIN_ALLOC_CTOR': 'the allocator-extended constructor of an all-plain vector',
+    'ELEM': 'construction / copy / move / assignment / swap of ContiguousElement (value_type)',
+    'ELEM_SB': 'structured bindings of a ContiguousElement',
+    'REF_ASSIGN_ELEM': 'assignment of a ContiguousElement to a reference (ref = element, ref = std::move(element))',
+    'ELEM_ASSIGN_REF': 'assignment of a reference to a ContiguousElement (element = ref)',
+    'REF_OPS': 'assignment / move assignment / swap / iter_swap between references, rotate, reverse, swap_ranges',
+    'CMP': 'comparison operators between vectors, references and elements',
+}
+C20_CONFIGS = ALL + ['B_T', 'B_TA', 'VB_T', 'P_TB', 'B_B']
+
+
+def run_c20(tier, seed):
+    """every documented operation is available for every kind of list: the operation alphabet of the specification
+    (Cntgs.tla) x the configuration matrix; a cell is the driver code of that operation group instantiated for that
+    list and allocator kind.  Decided by the compiler; the specification contributes the matrix."""
+    t0 = time.time()
+    cfgs, akinds, _ = vlib.load_configs()
+    aks = ['AE', 'NP', 'PR'] if tier == 'quick' else sorted(akinds)
+    cells = [(c, ak) for c in C20_CONFIGS for ak in aks]
+    pool = ThreadPoolExecutor(8)
+    futs = [(c, ak, pool.submit(vlib.build_driver, cfgs[c], ak, akinds[ak], 'asan')) for c, ak in cells]
+    bad = []
+    ok_cells = 0
+    for c, ak, f in futs:
+        exe, disabled, diag = f.result()
+        if exe is None:
+            bad.append((c, ak, 'DRIVER', diag))
+        elif disabled:
+            for g in disabled:
+                bad.append((c, ak, g.replace('-DVERIF_NO_', ''), diag))
+            ok_cells += len(vlib.GROUPS) - len(disabled)
+        else:
+            ok_cells += len(vlib.GROUPS)
+    os.makedirs(os.path.join(OUT, 'replay'), exist_ok=True)
+    seen = set()
+    for c, ak, g, diag in bad:
+        if (c, g) in seen:
+            continue
+        seen.add((c, g))
+        path = os.path.join(OUT, 'replay', 'C20_%s_%s_%s.json' % (c, ak, g))
+        json.dump({'property': 'C20', 'config': c, 'list': vlib.describe_list(cfgs[c]), 'alloc_kind': ak, 'group': g,
+                   'operations': GROUP_OPS.get(g, 'the driver itself'), 'compiler_diagnostics': diag[-6000:]},
+                  open(path, 'w'), indent=1)
+        print('VIOLATION property=C20 replay=%s' % path)
+        print('   not well-formed for %s (%s): %s' % (vlib.describe_list(cfgs[c]), ak, GROUP_OPS.get(g, g)))
+    ev = {'property_id': 'C20', 'tier': tier, 'seed': seed, 'level': 'other',
+          'coverage': {'explanation': 'operation groups of the specification\'s action alphabet (%s) x %d parameter '
+                                      'lists x %d allocator kinds: each cell is the driver code of that group '
+                                      'instantiated on the real templates and compiled (clang++ -std=c++17); the same '
+                                      'binaries then execute the histories of the other checks'
+                                      % (', '.join(vlib.GROUPS), len(C20_CONFIGS), len(aks)),
+                       'evaluations': len(cells) * len(vlib.GROUPS), 'distinct_nontrivial': ok_cells,
+                       'rule': 'a cell = (operation group, parameter list, allocator kind); non-trivial = compiles',
+                       'samples': [{'config': c, 'list': vlib.describe_list(cfgs[c]), 'alloc_kind': ak,
+                                    'groups': vlib.GROUPS} for c, ak in cells[:3]],
+                       'cells_not_well_formed': [[c, ak, g] for c, ak, g, _ in bad]},
+          'assumptions': ['C++17, clang++ 14 with libstdc++ 12; the operation groups are those of harness/driver.hpp'],
+          'wall_s': round(time.time() - t0, 1), 'violations': len(bad)}
+    os.makedirs(os.path.join(VERIF, 'evidence'), exist_ok=True)
+    json.dump(ev, open(os.path.join(VERIF, 'evidence', 'C20.json'), 'w'), indent=1)
+    print('C20 %s: %d cells, %d not well-formed, %.0f s' % (tier, len(cells) * len(vlib.GROUPS), len(bad), time.time() - t0))
+    return 1 if bad else 0
+
+
+# ------------------------------------------------------------------------------------------------- C15: source forms
+SRC_TYPES = {'id': ('std::uint32_t', 'std::uint32_t'), 'widen': ('std::uint16_t', 'std::uint32_t'),
+             'sign': ('std::int32_t', 'std::uint32_t'), 'bool': ('std::uint8_t', 'bool'),
+             'u2f': ('std::uint32_t', 'float'), 'f2u': ('float', 'std::uint32_t'), 'cls3': ('vsrc::A4', 'vsrc::B4'),
+             'op1': ('vsrc::C4', 'vsrc::D4'), 'enum': ('vsrc::E32', 'std::uint32_t'), 'cnt': ('vsrc::Cnt', 'vsrc::Cnt'),
+             'str': ('std::string', 'std::string')}
+FORM_NAMES = {1: 'std::vector lvalue', 2: 'std::vector rvalue', 3: 'std::array lvalue', 4: 'C array lvalue',
+              5: 'std::list lvalue', 6: 'std::list rvalue', 7: 'generated single-pass range', 8: 'raw pointer',
+              9: 'std::vector iterator', 10: 'std::list iterator', 11: 'std::move_iterator'}
+
+
+def src_cases():
+    key = vlib.sha('srccases', vlib.spec_hash(['Sources.tla']))
+    d = os.path.join(vlib.BUILD, 'sources', key)
+    res = os.path.join(d, 'cases.json')
+    with vlib.Lock(d + '.lock'):
+        if os.path.exists(res):
+            return json.load(open(res))
+        vlib.copy_spec(d, ['Sources.tla'])
+        with open(os.path.join(d, 'Gen.cfg'), 'w') as f:
+            f.write('INIT GenInit\nNEXT GenNext\nINVARIANT EmitCase\nCHECK_DEADLOCK FALSE\n')
+        with open(os.path.join(d, 'trace.ndjson'), 'w') as f:
+            f.write('{"e":"none"}\n')
+        rc, out = vlib.run_tlc(d, 'Sources.tla', 'Gen.cfg', env={'TRACE': os.path.join(d, 'trace.ndjson')})
+        if rc != 0 or 'No error has been found' not in out:
+            open(os.path.join(d, 'tlc.out'), 'w').write(out)
+            raise vlib.Infra('Sources.tla generator failed: %s/tlc.out' % d)
+        cases = [json.loads(ln[len('<<"CASE", "'):-3].replace('\\"', '"')) for ln in out.splitlines()
+                 if ln.startswith('<<"CASE", "')]
+        st, _ = vlib.tlc_stats(out)
+        r = {'cases': cases, 'states': st}
+        json.dump(r, open(res, 'w'))
+        return r
+
+
+def build_sources(conv):
+    s, t = SRC_TYPES[conv]
+    src = '#include "sources.hpp"\nint main(int c, char** v) { return vsrc::sources_main<%s, %s>("%s", c, v); }\n' % (s, t, conv)
+    key = vlib.sha('sources', src, vlib.repo_hash(), open(os.path.join(vlib.HARNESS, 'sources.hpp')).read())
+    d = os.path.join(vlib.BUILD, 'bin', key)
+    exe = os.path.join(d, 'sources')
+    with vlib.Lock(d + '.lock'):
+        if os.path.exists(exe):
+            return exe, ''
+        os.makedirs(d, exist_ok=True)
+        open(os.path.join(d, 'tu.cpp'), 'w').write(src)
+        r = subprocess.run(vlib.BUILDS['asan'] + ['-I', vlib.HARNESS, '-I', os.path.join(vlib.REPO, 'src'),
+                                                 os.path.join(d, 'tu.cpp'), '-o', exe], capture_output=True, text=True)
+        if r.returncode != 0:
+            return None, r.stderr[-6000:]
+        return exe, ''
+
+
+def run_c15(tier, seed):
+    t0 = time.time()
+    gen = src_cases()
+    cases = gen['cases']
+    pool = ThreadPoolExecutor(12)
+    convs = sorted(SRC_TYPES)
+    exes = dict(zip(convs, pool.map(build_sources, convs)))
+    verdicts, infra, ran, states = [], [], 0, gen['states']
+
+    def one(conv):
+        exe, diag = exes[conv]
+        mine = [c for c in cases if c['c'] == conv]
+        if exe is None:
+            return conv, None, diag, len(mine), 0
+        d = os.path.join(vlib.BUILD, 'srcruns', vlib.sha(exe, json.dumps(mine), vlib.spec_hash(['Sources.tla'])))
+        res = os.path.join(d, 'result.json')
+        with vlib.Lock(d + '.lock'):
+            if os.path.exists(res):
+                return (conv,) + tuple(json.load(open(res)))
+            os.makedirs(d, exist_ok=True)
+            with open(os.path.join(d, 'plan.txt'), 'w') as f:
+                for c in mine:
+                    f.write('%d %d %d\n' % (c['varying'], c['f'], c['n']))
+            env = dict(os.environ, ASAN_OPTIONS='symbolize=0:detect_leaks=0:print_summary=0')
+            r = subprocess.run(['timeout', '600', exe, os.path.join(d, 'plan.txt'), os.path.join(d, 'trace.ndjson')],
+                               env=env, capture_output=True, text=True)
+            if r.returncode != 0:
+                raise vlib.Infra('sources driver failed: ' + r.stderr[-800:])
+            vlib.copy_spec(d, ['Sources.tla'])
+            with open(os.path.join(d, 'Trace.cfg'), 'w') as f:
+                f.write('INIT TraceInit\nNEXT TraceNext\nPOSTCONDITION Consumed\nCHECK_DEADLOCK FALSE\n')
+            rc, out = vlib.run_tlc(d, 'Sources.tla', 'Trace.cfg', env={'TRACE': os.path.join(d, 'trace.ndjson')})
+            if rc != 0 or 'No error has been found' not in out:
+                open(os.path.join(d, 'tlc.out'), 'w').write(out)
+                raise vlib.Infra('Sources.tla trace validation failed: %s/tlc.out' % d)
+            vs = [json.loads(m.group(1).replace('\\"', '"')) for m in (vlib.VERDICT_RE.match(x) for x in out.splitlines()) if m]
+            st, _ = vlib.tlc_stats(out)
+            json.dump([vs, '', len(mine), st], open(res, 'w'))
+            return conv, vs, '', len(mine), st
+    results = list(pool.map(one, convs))
+    nviol = 0
+    os.makedirs(os.path.join(OUT, 'replay'), exist_ok=True)
+    for conv, vs, diag, n, st in results:
+        states += st
+        if vs is None:
+            path = os.path.join(OUT, 'replay', 'C15_%s_build.json' % conv)
+            json.dump({'property': 'C15', 'conv': conv, 'types': SRC_TYPES[conv], 'compiler_diagnostics': diag}, open(path, 'w'), indent=1)
+            infra.append('the C15 driver for %s -> %s does not compile (diagnostics: %s); availability is judged by C20'
+                         % (SRC_TYPES[conv][0], SRC_TYPES[conv][1], path))
+            continue
+        ran += n
+        seen = set()
+        for v in vs:
+            if 'DRIVER_PRECONDITION' in v['kinds']:
+                infra.append('case outside the applicable set: %s' % v['case'])
+                continue
+            sig = (v['case']['conv'], v['case']['form'], v['case']['varying'], tuple(sorted(v['kinds'])))
+            nviol += 1
+            if sig in seen:
+                continue
+            seen.add(sig)
+            path = os.path.join(OUT, 'replay', 'C15_%s_f%d_v%d_n%d.json' % (conv, v['case']['form'], v['case']['varying'], v['case']['n']))
+            json.dump({'property': 'C15', 'case': v['case'], 'source_form': FORM_NAMES[v['case']['form']],
+                       'types': SRC_TYPES[conv], 'kinds': v['kinds']}, open(path, 'w'), indent=1)
+            print('VIOLATION property=C15 replay=%s' % path)
+            print('   %s -> %s from %s, %s, n=%d: %s' % (SRC_TYPES[conv][0], SRC_TYPES[conv][1], FORM_NAMES[v['case']['form']],
+                                                       'VaryingSize' if v['case']['varying'] else 'FixedSize', v['case']['n'], sorted(v['kinds'])))
+    ev = {'property_id': 'C15', 'tier': tier, 'seed': seed, 'level': 'model_checking',
+          'coverage': {'states': states, 'transitions': len(cases) + ran, 'traces_validated_against_impl': ran - nviol if ran >= nviol else 0,
+                       'samples': cases[:2] + cases[len(cases) // 2:len(cases) // 2 + 2],
+                       'cases_enumerated_by_tlc': len(cases), 'cases_executed': ran, 'exhaustive': True,
+                       'explanation': 'every applicable (parameter kind, source form, type pair, length 0..3) of spec/Sources.tla '
+                                      'executed on the real templates; stored values, source post-state and per-item copy/move '
+                                      'counts judged by the same module'},
+          'assumptions': ['type pairs and source forms are those of spec/Sources.tla / harness/sources.hpp', 'ASan build, std::allocator'],
+          'wall_s': round(time.time() - t0, 1), 'violations': nviol}
+    os.makedirs(os.path.join(VERIF, 'evidence'), exist_ok=True)
+    json.dump(ev, open(os.path.join(VERIF, 'evidence', 'C15.json'), 'w'), indent=1)
+    if infra:
+        for m in infra[:10]:
+            print('INFRASTRUCTURE:', m)
+        return 3
+    print('C15 %s: %d cases enumerated by TLC, %d executed, %d divergent, %.0f s' % (tier, len(cases), ran, nviol, time.time() - t0))
+    return 1 if nviol else 0
 
 
 # ------------------------------------------------------------------------------------------------- known findings
@@ -336,6 +551,10 @@ def write_replay(pid, key, r, v):
 
 
 def run_property(pid, tier, seed):
+    if pid == 'C20':
+        return run_c20(tier, seed)
+    if pid == 'C15':
+        return run_c15(tier, seed)
     t0 = time.time()
     vlib.prune_cache()
     cfgs, akinds, _ = vlib.load_configs()
